@@ -1092,27 +1092,27 @@ def buckets(tier):
         B.append(Bucket(name, strat, prop, {'quick': q, 'thorough': t}, nontrivial=nt, classes=cl,
                         shards={'quick': 1, 'thorough': shards}, weight=weight))
 
-    add('getitem:tuple', lambda: getitem_cases('tuple'), prop_getitem, 250, 4000, nt_getitem, cls_getitem, 2.0, 4)
-    add('getitem:bare', lambda: getitem_cases('bare'), prop_getitem, 150, 3000, nt_getitem, cls_getitem, 2.0, 2)
+    add('getitem:tuple', lambda: getitem_cases('tuple'), prop_getitem, 1000, 4000, nt_getitem, cls_getitem, 2.0, 4)
+    add('getitem:bare', lambda: getitem_cases('bare'), prop_getitem, 600, 3000, nt_getitem, cls_getitem, 2.0, 2)
     for vk in ('utpm', 'utpm-bcast', 'ndarray', 'ndarray-bcast', 'scalar'):
-        add('setitem:' + vk, (lambda vk=vk: setitem_cases(vk)), prop_setitem, 150, 3000, nt_setitem, cls_setitem, 2.0, 3)
-    add('reshape', reshape_cases, prop_op, 200, 4000, nt_op, cls_op, 2.0, 3)
-    add('transpose', transpose_cases, prop_op, 120, 3000, nt_op, cls_op, 2.0, 2)
-    add('sum', sum_cases, prop_op, 150, 3000, nt_op, cls_op)
-    add('tile', tile_cases, prop_op, 120, 3000, nt_op, cls_op, 1.5)
-    add('diag', diag_cases, prop_op, 120, 3000, nt_op, cls_op)
-    add('triu', lambda: tri_cases('triu'), prop_op, 80, 2000, nt_op, cls_op)
-    add('tril', lambda: tri_cases('tril'), prop_op, 80, 2000, nt_op, cls_op)
-    add('trace', trace_cases, prop_op, 60, 2000, nt_op, cls_op)
-    add('symvec', symvec_cases, prop_op, 80, 2000, nt_op, cls_op, 2.0)
-    add('vecsym', vecsym_cases, prop_op, 60, 1500, nt_op, cls_op, 2.0)
+        add('setitem:' + vk, (lambda vk=vk: setitem_cases(vk)), prop_setitem, 600, 3000, nt_setitem, cls_setitem, 2.0, 3)
+    add('reshape', reshape_cases, prop_op, 800, 4000, nt_op, cls_op, 2.0, 3)
+    add('transpose', transpose_cases, prop_op, 480, 3000, nt_op, cls_op, 2.0, 2)
+    add('sum', sum_cases, prop_op, 600, 3000, nt_op, cls_op)
+    add('tile', tile_cases, prop_op, 480, 3000, nt_op, cls_op, 1.5)
+    add('diag', diag_cases, prop_op, 480, 3000, nt_op, cls_op)
+    add('triu', lambda: tri_cases('triu'), prop_op, 320, 2000, nt_op, cls_op)
+    add('tril', lambda: tri_cases('tril'), prop_op, 320, 2000, nt_op, cls_op)
+    add('trace', trace_cases, prop_op, 240, 2000, nt_op, cls_op)
+    add('symvec', symvec_cases, prop_op, 320, 2000, nt_op, cls_op, 2.0)
+    add('vecsym', vecsym_cases, prop_op, 240, 1500, nt_op, cls_op, 2.0)
     for op in ('neg', 'conj', 'real', 'imag'):
-        add(op, (lambda op=op: unary_cases(op)), prop_op, 60, 2000, nt_op, cls_op)
-    add('fft', lambda: fft_cases('fft'), prop_op, 100, 3000, nt_op, cls_op)
-    add('ifft', lambda: fft_cases('ifft'), prop_op, 100, 3000, nt_op, cls_op)
-    add('zeros', lambda: construct_cases('zeros'), prop_construct, 60, 2000, nt_construct, cls_construct)
-    add('ones', lambda: construct_cases('ones'), prop_construct, 60, 2000, nt_construct, cls_construct)
-    add('zeros_ones_like', lambda: construct_cases('like'), prop_construct, 60, 2000, nt_construct, cls_construct)
-    add('reject', reject_cases, prop_reject, 100, 2000, nt_op, cls_reject)
-    add('bytes', bytes_cases, prop_bytes, 300, 20000, nt_bytes, cls_bytes, 2.0, 4)
+        add(op, (lambda op=op: unary_cases(op)), prop_op, 240, 2000, nt_op, cls_op)
+    add('fft', lambda: fft_cases('fft'), prop_op, 400, 3000, nt_op, cls_op)
+    add('ifft', lambda: fft_cases('ifft'), prop_op, 400, 3000, nt_op, cls_op)
+    add('zeros', lambda: construct_cases('zeros'), prop_construct, 240, 2000, nt_construct, cls_construct)
+    add('ones', lambda: construct_cases('ones'), prop_construct, 240, 2000, nt_construct, cls_construct)
+    add('zeros_ones_like', lambda: construct_cases('like'), prop_construct, 240, 2000, nt_construct, cls_construct)
+    add('reject', reject_cases, prop_reject, 400, 2000, nt_op, cls_reject)
+    add('bytes', bytes_cases, prop_bytes, 1200, 20000, nt_bytes, cls_bytes, 2.0, 4)
     return B
